@@ -88,16 +88,90 @@ class CombinedWave(tuple):
         return 2 * self.points
 
 
+class _Stub(types.ModuleType):
+    """empty stand-in module: every attribute is a fresh empty class (only used in annotations / base classes)"""
+    def __getattr__(self, n):
+        if n.startswith('__'):
+            raise AttributeError(n)
+        t = type(n, (), {})
+        setattr(self, n, t)
+        return t
+
+
+def _stub_modules():
+    for name in ('tabor_control', 'tabor_control.device', 'pyvisa', 'pyvisa.resources'):
+        if name not in sys.modules:
+            sys.modules[name] = _Stub(name)
+    sys.modules['tabor_control'].device = sys.modules['tabor_control.device']
+    sys.modules['pyvisa'].resources = sys.modules['pyvisa.resources']
+
+
 def load_driver_module():
-    if 'tabor_control' not in sys.modules:
-        tc = types.ModuleType('tabor_control')
-        tcd = types.ModuleType('tabor_control.device')
-        tc.device = tcd
-        tcd.TEWXAwg = object
-        sys.modules['tabor_control'] = tc
-        sys.modules['tabor_control.device'] = tcd
+    _stub_modules()
     import importlib
     return importlib.import_module('qupulse.hardware.awgs.tabor')
+
+
+def load_feature_module():
+    """qupulse/hardware/feature_awg/tabor.py (second Tabor driver; own copy of the placement as a method)"""
+    _stub_modules()
+    import importlib
+    return importlib.import_module('qupulse.hardware.feature_awg.tabor')
+
+
+class FakeDeviceF(FakeDevice):
+    """the same abstract instrument behind the interface the feature driver uses (device[SCPI].send_cmd, ...)"""
+    def __init__(self, total):
+        super().__init__(total)
+        ch = types.SimpleNamespace(_select=lambda: None, idn=1)
+        self.channels = [ch, ch]
+        self.channel_tuples = [types.SimpleNamespace(sample_rate=10 ** 9)]
+        self.name = 'fake'
+
+    def __getitem__(self, feature):
+        return self
+
+    def _send_binary_data(self, bin_dat=None, **kw):
+        return self.send_binary_data(pref=':TRAC:DATA', bin_dat=bin_dat)
+
+
+def make_tuple_feature(F, total):
+    """TaborChannelTuple + TaborProgramManagement of feature_awg/tabor.py without an instrument"""
+    from qupulse.hardware.feature_awg.base import AWGChannelTuple
+    from qupulse.hardware.feature_awg.features import AmplitudeOffsetHandling, VoltageRange
+    dev = FakeDeviceF(total)
+
+    class Ch:
+        idn = 1
+        _amplitude_offset_handling = AmplitudeOffsetHandling.IGNORE_OFFSET
+
+        def _select(self):
+            pass
+
+        def __getitem__(self, feature):
+            return types.SimpleNamespace(amplitude=1.0, offset=0.0)
+    ct = F.TaborChannelTuple.__new__(F.TaborChannelTuple)
+    AWGChannelTuple.__init__(ct, 1)
+    ct._device = lambda: dev
+    ct._configuration_guard_count = 0
+    ct._is_in_config_mode = True
+    ct._channels = (Ch(), Ch())
+    ct._marker_channels = (Ch(), Ch())
+    ct._idle_segment = Seg(0, 192)
+    ct._known_programs = dict()
+    ct._current_program = None
+    ct._segment_lengths = ct._segment_capacity = ct._segment_hashes = ct._segment_references = None
+    ct._sequencer_tables = ct._advanced_sequence_table = None
+    ct._internal_paranoia_level = 0
+    ct._exit_config_mode = lambda: None
+    pm = F.TaborProgramManagement(ct)
+    ct.add_feature(pm)
+    pm._change_armed_program = lambda name: None     # sequencer tables are outside the property
+    # outside the property: upload() ends with set_repetition_mode(RepetitionMode.INFINITE), which compares the enum
+    # with the strings "infinite"/"once" and raises ValueError after the program has been registered
+    pm.set_repetition_mode = lambda *a, **k: None
+    pm.clear()
+    return ct, pm, dev
 
 
 class FakeTaborProgram:
@@ -145,11 +219,13 @@ def snapshot(cp, dev):
     }
 
 
-def run_history(total, ops):
+def run_history(total, ops, driver='awgs'):
     """apply ops = [['upload', name, [[hash, len], ...], force] | ['free', name] | ['remove', name] | ['cleanup'] |
-    ['clear']] to a fresh channel pair; returns one observation per operation"""
+    ['clear']] to a fresh channel pair (driver='awgs': hardware/awgs/tabor.py::TaborChannelPair; 'feature':
+    hardware/feature_awg/tabor.py::TaborChannelTuple + TaborProgramManagement); one observation per operation"""
     import warnings
-    T = load_driver_module()
+    feature = driver == 'feature'
+    T = load_feature_module() if feature else load_driver_module()
     saved = (T.TaborProgram, T.make_compatible, T.make_combined_wave)
     T.TaborProgram = FakeTaborProgram
     T.make_compatible = lambda *a, **k: None
@@ -157,25 +233,32 @@ def run_history(total, ops):
                                                          sum(s.num_points + 16 for s in segments) - 16)
     out = []
     try:
-        cp, dev = make_pair(T, total)
+        if feature:
+            cp, pm, dev = make_tuple_feature(T, total)
+        else:
+            cp, dev = make_pair(T, total)
+            pm = cp
         for op in ops:
             err = None
             try:
                 with warnings.catch_warnings():
                     warnings.simplefilter('ignore')
-                    if op[0] == 'upload':
+                    if op[0] == 'upload' and feature:
+                        pm.upload(op[1], [tuple(s) for s in op[2]], (1, 2), (None, None), (None, None),
+                                  repetition_mode='infinite', force=bool(op[3]))
+                    elif op[0] == 'upload':
                         cp.upload(op[1], [tuple(s) for s in op[2]], (1, 2), (None, None), (None, None), force=bool(op[3]))
                     elif op[0] == 'free':
                         cp.free_program(op[1])
                     elif op[0] == 'remove':
-                        cp.remove(op[1])
+                        pm.remove(op[1])
                     elif op[0] == 'cleanup':
                         cp.cleanup()
                     elif op[0] == 'clear':
-                        cp.clear()
+                        pm.clear()
                     else:
                         raise ValueError(op)
-            except RuntimeError as e:
+            except (RuntimeError, MemoryError) as e:     # the feature driver's copy raises MemoryError
                 msg = ' '.join(str(a) for a in e.args)
                 err = 'Fragmentation' if 'ragmentation' in msg else 'NotEnoughMemory' if 'nough' in msg else 'Refused'
             except KeyError:
